@@ -591,6 +591,11 @@ def r_cachedep(ctx) -> None:
             n += 1
             for site in namespace_reads(fn.node):
                 ctx.fail('R-CACHEDEP', fn, f'memoised by the structurally compared object but resolving through its attribute namespace (`{core.src(site)}`): equal objects with different attribute keys get each other\'s cached answers', site)
+        if any(d in ('lru_cache', 'cache') for d in decos):
+            for a in fn.node.args.args + fn.node.args.kwonlyargs:
+                ann = core.src(a.annotation).replace("'", '') if a.annotation is not None else ''
+                if ann in ('typing.Any', 'Any', 'dsl.Native', 'Native'):
+                    ctx.fail('R-CACHEDEP', fn, f'memoised by the native python value `{a.arg}: {ann}`: the cache conflates equal values of different types (1 == 1.0 == True, (1, 2) == (1.0, 2.0) - `typed=True` separates the top level only), so the kind/feature derived from the first one is served for the others', fn.node, key=f'native-key:{a.arg}')
         for z in schema_feature_zips(fn.node):
             if prog.func_of_node(z) is fn:
                 ctx.fail('R-ZIPALIGN', fn, f'`{core.src(z)}` pairs a name-keyed schema (equally named fields collapse) with a positional feature sequence: positions disagree as soon as two features share a name', z)
